@@ -121,6 +121,7 @@ impl<'a> RtcpPacketWriter for UnknownBuilder<'a> {
     ///
     /// * The count is out of range.
     /// * The padding is not a multiple of 4.
+    /// * The data length is not a multiple of 4.
     fn calculate_size(&self) -> Result<usize, RtcpWriteError> {
         if self.count > Unknown::MAX_COUNT {
             return Err(RtcpWriteError::CountOutOfRange {
@@ -131,7 +132,11 @@ impl<'a> RtcpPacketWriter for UnknownBuilder<'a> {
 
         check_padding(self.padding)?;
 
-        Ok(Unknown::MIN_PACKET_LEN + self.data.len())
+        if self.data.len() % 4 != 0 {
+            return Err(RtcpWriteError::DataLen32bitMultiple(self.data.len()));
+        }
+
+        Ok(Unknown::MIN_PACKET_LEN + self.data.len() + self.padding as usize)
     }
 
     /// Write this Unknown packet data into `buf` without any validity checks.
